@@ -42,6 +42,9 @@ pub enum AOp {
     /// `increment_strong_count` through the shared handle's pointer; the reference obtained is given back by main after it
     /// has joined every child (no release sits next to the increment in the thread that performs it)
     IncShared,
+    /// a child gives its handle to main instead of releasing it (main releases it after it has joined every child): the
+    /// thread performs no release at all. Programs with `shared` only, never in main
+    HandOver,
 }
 
 #[derive(Clone, Debug, PartialEq, Eq, Hash, Serialize, Deserialize)]
@@ -128,7 +131,7 @@ fn step_obs(p: &AProg, s: &St, t: usize, flag_seen: Option<u8>) -> Option<(St, O
             }
             ns.g = false;
             // (together with the references the threads obtained through `IncShared`)
-            ns.count -= 1 + p.threads.iter().flatten().filter(|o| **o == AOp::IncShared).count() as i32;
+            ns.count -= 1 + p.threads.iter().flatten().filter(|o| matches!(o, AOp::IncShared | AOp::HandOver)).count() as i32;
             if ns.count == 0 {
                 ns.payload_drops += 1;
             }
@@ -182,7 +185,7 @@ fn step_obs(p: &AProg, s: &St, t: usize, flag_seen: Option<u8>) -> Option<(St, O
         AOp::RawRound | AOp::ReadPayload => {}
         AOp::Inc | AOp::IncShared => ns.count += 1,
         AOp::Dec => ns.count -= 1,
-        AOp::Forget => {
+        AOp::Forget | AOp::HandOver => {
             ns.handles[t] -= 1;
         }
         AOp::SetFlag => ns.flag = 1,
@@ -527,6 +530,19 @@ impl Drop for RetGuard {
 struct Iter {
     log: Vec<(u8, u8, i64)>,
     res: Vec<Vec<i64>>,
+    handed: Handed,
+}
+
+/// handles given to main (`HandOver`); whatever is left when the iteration's record is discarded (a failed execution) is
+/// forgotten: a loom handle cannot be released outside its execution
+#[derive(Default)]
+struct Handed(Vec<loom::sync::Arc<Payload>>);
+impl Drop for Handed {
+    fn drop(&mut self) {
+        for h in self.0.drain(..) {
+            std::mem::forget(h);
+        }
+    }
 }
 
 fn exec(p: &AProg, t: usize, first: loom::sync::Arc<Payload>, track: loom::alloc::Track<u32>, flag: &loom::sync::atomic::AtomicUsize, it: &SM<Iter>, g: &Option<SArc<loom::sync::Arc<Payload>>>) {
@@ -555,6 +571,10 @@ fn exec(p: &AProg, t: usize, first: loom::sync::Arc<Payload>, track: loom::alloc
             AOp::CountShared => res = Arc::strong_count(&**g.as_ref().unwrap()) as i64,
             AOp::CloneShared => hs.push(Arc::clone(&**g.as_ref().unwrap())),
             AOp::IncShared => unsafe { Arc::increment_strong_count(Arc::as_ptr(&**g.as_ref().unwrap())) },
+            AOp::HandOver => {
+                let h = hs.pop().unwrap();
+                it.lock().unwrap().handed.0.push(h);
+            }
             AOp::GetMut => {
                 // a successful get_mut hands out `&mut`: write through it (the earlier owners' reads — every Drop reads the
                 // payload first — must happen-before it)
@@ -747,6 +767,10 @@ pub fn run_loom(p: &AProg, iter_cap: usize) -> ARun {
             for h in hs {
                 h.join().unwrap();
             }
+            let handed = std::mem::take(&mut it3.lock().unwrap().handed.0);
+            for h in handed {
+                drop(h);
+            }
             if let Some(g) = &g {
                 for _ in 0..p2.threads.iter().flatten().filter(|o| **o == AOp::IncShared).count() {
                     unsafe { loom::sync::Arc::decrement_strong_count(loom::sync::Arc::as_ptr(&**g)) };
@@ -805,6 +829,14 @@ fn core(tier: u8) -> &'static Vec<AProg> {
         }
         // an inspection races with an increment whose thread releases nothing afterwards (the reference it obtained is
         // given back by main after the joins): both orders have to be explored from either side
+        for th in [vec![vec![CountShared], vec![HandOver, IncShared]], vec![vec![Count], vec![HandOver, IncShared]], vec![vec![HandOver, IncShared], vec![HandOver, CountShared]], vec![vec![CountShared, CountShared], vec![HandOver, IncShared], vec![HandOver, IncShared]], vec![vec![GetMut], vec![HandOver, CloneShared, HandOver]], vec![vec![Drop, CountShared], vec![HandOver, CloneShared, HandOver]]] {
+            let mut th = th;
+            // (main keeps its own handle: `HandOver` is an operation of the children)
+            if th[0].first() == Some(&HandOver) {
+                th[0].remove(0);
+            }
+            v.push(AProg { threads: th, panic_in_drop: false, detached: false, shared: true });
+        }
         for th in [vec![vec![CountShared], vec![IncShared]], vec![vec![IncShared], vec![CountShared]], vec![vec![Drop, CountShared], vec![Drop, IncShared]], vec![vec![Count], vec![IncShared], vec![IncShared]], vec![vec![GetMut], vec![Drop, IncShared]], vec![vec![IncShared, Count], vec![Count, IncShared]]] {
             v.push(AProg { threads: th, panic_in_drop: false, detached: false, shared: true });
         }
